@@ -7,7 +7,7 @@ for id in $IDS; do
   for m in mutants/$id/*.diff seeded/$id/patch.diff; do
     [ -f "$m" ] || continue
     if ! git -C /repo apply --check "$(realpath "$m")" 2>/dev/null; then echo "$m: not-applicable (does not apply to current /repo)"; continue; fi
-    out="$(tools/try_patch.sh "$m" "$id" 2>&1)"
+    out="$(tools/try_patch.sh "$m" "${id%%-*}" 2>&1)"
     if echo "$out" | grep -q '^VIOLATION'; then echo "$m: caught ($(echo "$out" | grep -c '^VIOLATION') violation lines)"; else echo "$m: MISSED"; fi
   done
 done
